@@ -70,8 +70,8 @@ fn cleanup_temporary_directory(temp_dir: Cow<Path>) -> Result<()> {
     Ok(())
 }
 
-/// Returns `name` if it non-empty and does not start with a reserved
-/// byte (dot, slash, backslash).
+/// Returns `name` if it non-empty, does not start with a reserved
+/// byte (dot, slash, backslash), and does not contain any slash.
 fn validate_file_name(name: &str) -> Result<&str> {
     match name.as_bytes().first() {
         None => Err(Error::new(
@@ -89,6 +89,14 @@ fn validate_file_name(name: &str) -> Result<&str> {
         Some(b'\\') => Err(Error::new(
             ErrorKind::InvalidInput,
             "kismet cached file name must not starts with a backslash",
+        )),
+        // A key names one file directly inside the cache directory:
+        // it must be a single path component, so that it can never
+        // reach into subdirectories, the `.kismet` namespace, or out
+        // of the cache directory (e.g., via `..` components).
+        Some(_) if name.as_bytes().contains(&b'/') => Err(Error::new(
+            ErrorKind::InvalidInput,
+            "kismet cached file name must not contain a forward slash",
         )),
         Some(_) => Ok(name),
     }
